@@ -67,6 +67,10 @@ EPS = 2.0 ** -52
 # ------------------------------------------------------------------ generation
 
 def _val(rng, mag_lo, mag_hi, style):
+    if style == "special":
+        # small integers, where equal hashes (hash(-1) == hash(-2)), interned
+        # objects and 'nice' fixed points live
+        return float(rng.choice([-2, -1, -1, -2, 0, 1, 2, 8, 10, 100]))
     e = rng.uniform(mag_lo, mag_hi)
     m = 10.0 ** e
     if style == "int":
@@ -87,10 +91,10 @@ def _pair(rng, mag_lo, mag_hi, style, allow_zero=True):
         else:
             a = _val(rng, mag_lo, mag_hi, style)
         b = _val(rng, mag_lo, mag_hi, style)
-        if rng.random() < 0.3:
+        if style != "special" and rng.random() < 0.3:
             # nearby end points: same sign and magnitude
             b = a + abs(a if a else b) * rng.choice([0.03, 0.5, 1.7, -0.4])
-        elif rng.random() < 0.1:
+        elif style != "special" and rng.random() < 0.1:
             # narrow but non-degenerate: span far below the magnitude
             b = a + abs(a if a else b) * rng.choice([1e-6, 3e-9, 1e-10, -2e-12, 5e-14])
         if a != b and math.isfinite(a) and math.isfinite(b):
@@ -104,7 +108,7 @@ def gen_plan(rng, tier):
     regime = rng.choice(["unit", "tiny", "small", "mid", "huge", "mixed"])
     lo, hi = {"unit": (-1, 1), "tiny": (-6, -3), "small": (-3, 1), "mid": (0, 4),
               "huge": (5, 9), "mixed": (-6, 9)}[regime]
-    style = rng.choice(["float", "float", "round", "int"])
+    style = rng.choice(["float", "float", "round", "int", "special"])
     clamp_p = rng.choice([0.0, 0.1, 0.3])
     fault_p = rng.choice([0.0, 0.0, 0.05, 0.12])
     copy_p = rng.choice([0.1, 0.2, 0.3])
